@@ -107,6 +107,82 @@ def clause1(P, res):
             res.holds(rid, key, f"Drop reaches {hit.rsplit('::', 2)[-2]}::{hit.rsplit('::', 1)[-1]}", where=where, witness=[f"cells: {cells}"])
         else:
             res.violated(rid, key, "Drop exists but reaches no drain/free primitive: buffered values are leaked at teardown", where=where)
+    return owners
+
+
+def clause6(P, res, owners):
+    from rules import disconnect
+    rid = "C09-6"
+    res.rule(rid, "teardown drains unconditionally: in the Drop of every payload-owning storage type, each path from entry to return passes the drain (the dequeue "
+                  "loop / free primitive / a loop that drains every element it visits), unless it leaves on a `needs_drop::<T>()` test or on the cell's own occupancy marker (state / sequence / Option slot) — a drain that is skipped "
+                  "when some flag is set leaks whatever a racing send published after that flag was raised")
+    n = 0
+    for a, cells in owners:
+        d = common.drop_body(P, a["path"])
+        if d is None:
+            continue
+        memo = {}
+
+        def reaches_drain(cid, depth=0):
+            if cid in memo:
+                return memo[cid]
+            memo[cid] = False
+            if DRAIN_CALLS.search(cid):
+                memo[cid] = True
+                return True
+            bb = P.body(cid)
+            if bb is not None and depth < 4:
+                memo[cid] = any(reaches_drain(x, depth + 1) for x in P.callees_of(bb))
+            return memo[cid]
+        PAYLOAD_DROP = re.compile(r"assume_init_drop|assume_init_read|::pop$|::take$|drop_in_place|::drain|::clear$|::pop_node$|::deq_\w+$")
+
+        def reaches_drain(cid, depth=0):      # payload drops only: freeing a node/slab is not a drain
+            if cid in memo:
+                return memo[cid]
+            memo[cid] = False
+            if PAYLOAD_DROP.search(cid):
+                memo[cid] = True
+                return True
+            bb = P.body(cid)
+            if bb is not None and depth < 4 and cid.startswith("fibre::"):
+                memo[cid] = any(reaches_drain(x, depth + 1) for x in P.callees_of(bb))
+            return memo[cid]
+        dr = [e for e in d.calls() if reaches_drain(e.callee_resolved or e.callee) or reaches_drain(e.callee)]
+        if not dr:
+            continue        # C09-1 reports it
+        n += 1
+        excused = []
+        for blk in range(len(d.blocks)):
+            s = None if d.is_cleanup(blk) else d.switch_source(blk)
+            if s and s["kind"] == "call" and s["event"].method == "needs_drop":
+                excused += [(blk, x) for x in d.succ[blk]]
+            # a single-cell owner looks at the cell's own occupancy marker (oneshot state == SENT, spmc slot sequence parity, Option slot)
+            t = d.term(blk)
+            if not d.is_cleanup(blk) and t["k"] == "switch":
+                if t.get("on", {}).get("kind") == "discr":
+                    src = d.def_event_of_operand({"c": [t["on"]["p"][0], []]})
+                    if src is not None and src.kind == "call" and src.method == "take":
+                        excused += [(blk, x) for x in d.succ[blk]]
+                else:
+                    evs, _, _ = mir.operand_sources(d, t["o"])
+                    if any(x.kind == "call" and x.is_atomic and x.method == "load" and x.args and re.search(r"\.(state|sequence|seq)$", d.path_of_operand(x.args[0])) for x in evs):
+                        excused += [(blk, x) for x in d.succ[blk]]
+        thr = [e.pos for e in dr] + [e.pos for e in disconnect.loop_feeders(d, dr, frozenset(excused))]
+        # a hand-written `loop { if nothing_left { break } drop(next) }`: entering the loop that contains the drain is the drain
+        for e in dr:
+            fwd = {p0[0] for p0 in d.pos_reach_set((e.bb, 0), strict=False)}
+            for blk in fwd:
+                if not d.is_cleanup(blk) and (e.bb, 0) in d.pos_reach_set((blk, 0)) and (blk, 0) in d.pos_reach_set((e.bb, 0)):
+                    thr.append((blk, 0))
+        reach = d.pos_reach_set((0, 0), removed=frozenset(thr), removed_edges=frozenset(excused), strict=False)
+        key = a["path"]
+        if (0, 0) not in thr and reach & set(d.exits()):
+            res.violated(rid, key, f"a path through {d.id} returns without draining ({', '.join(sorted({e.method for e in dr}))} is skipped on some branch): values still "
+                         "stored at teardown on that branch are never dropped", where=dr[0].loc)
+        else:
+            res.holds(rid, key, f"every path through Drop passes {', '.join(sorted({e.method for e in dr}))}", where=dr[0].loc)
+    if n < 5:
+        res.violated(rid, "owner-drops", f"expected >= 5 owner Drop bodies with a drain, found {n}")
 
 
 def clause4(P, res):
@@ -140,7 +216,7 @@ def clause4(P, res):
             res.violated(rid, key, f"future moves items out of the caller's Vec into `{holds_pending[0]}` but has no Drop: cancelling it loses the unsent tail")
         else:
             writes_items = any(e.kind == "call" and e.args and re.search(r"\.items$", d.path_of_operand(e.args[0])) and e.method in ("extend", "push", "append", "splice", "insert")
-                               or e.kind == "assign" and re.search(r"\.items$", d.path_of_place(e.data["p"])) for e in d.events)
+                               or e.kind == "assign" and e.data["p"][1] and re.search(r"\.items$", d.path_of_place(e.data["p"])) for e in d.events)
             if writes_items:
                 res.holds(rid, key, f"Drop restores `{holds_pending[0]}` into items", where=f"{d.file}:{d.line}")
             else:
@@ -195,9 +271,10 @@ def clause5(P, res):
 def run(P, ctx):
     res = Result("C09")
     res.extra["explanation"] = "Ownership shapes: storage owners drain on drop, forget-conversions move each owning field once, recovered items re-enter."
-    clause1(P, res)
+    owners = clause1(P, res)
     clause2(P, res)
     clause4(P, res)
     clause5(P, res)
+    clause6(P, res, owners or [])
     res.notes.append("take-once cell discipline (MaybeUninit reads guarded by the publishing state) is decided under C01-3 / C07-2 and not repeated here")
     return res
